@@ -7,6 +7,8 @@ fail=0
 #   python3 tie/fingerprint.py snapshot /repo > tie/fingerprints.json)
 d=$(python3 tie/fingerprint.py diff /repo tie/fingerprints.json)
 if [ -n "$d" ]; then echo "STALE tie/fingerprints.json:"; echo "$d"; fail=1; fi
+h=$(python3 tie/fingerprint.py hints /repo tie/constants.json)
+if [ "$h" != "[]" ]; then echo "STALE tie/constants.json (python3 tie/fingerprint.py constants /repo > tie/constants.json): $h"; fail=1; fi
 for s in $SEEDS; do
   for p in $(python3 -c "import json; print(' '.join(c['property_id'] for c in json.load(open('MANIFEST.json'))['checks']))"); do
     out=$(VERIF_SEED=$s ./check $p --tier quick 2>&1); rc=$?
